@@ -225,7 +225,8 @@ def universe():
             [1, [2]], [1, [2, 3]], [[1], [2, 3]], [[1, 2], [3]], [1, [2, [3]]], [[1, [2]], 3], [[], [1]], [[]], [[], []], [1, [2, 3], 1],
             [1, [2.5]], [[1, 2], [3.5]],
             ["a", "bc"], ["ab", "cd"], [1, "a"], [Y("a"), Y("b")], [Y("a"), 1], [[], ""], ["", "a"], [1, "a", Y("s"), C("z")],
-            [[1, 2], "ab"], [[1, "a"], [2, "b"]], [["ab"], ["cd"]], ["ab", [1, 2], 3]]
+            [[1, 2], "ab"], [[1, "a"], [2, "b"]], [["ab"], ["cd"]], ["ab", [1, 2], 3],
+            [0, 1], [7, 0, 2], ["x", 1], [C("x"), 1, 3], ["xx", 1], [42, 0, 1], [[9, 9], 1], [2.5, 1], [[9, 9], 0, 2], ["xx", 0, 3]]
     u += [lit(v) for v in vecs]
     return u
 
@@ -663,6 +664,7 @@ WITNESSES = {
     "group-sorted-order": ("eval_monad_groupby", S("hello foo"), None),
     "group-non-numeric": ("eval_monad_groupby", lit([1, "a"]), None),
     "range-string-sorted": ("eval_monad_range", S("hello"), None),
+    "amend-cast": ("eval_dyad_amend", lit([1, 2, 3]), lit(["x", 0])),
     "char-of-empty": ("eval_monad_char", lit([]), None),
     "expand-empty": ("eval_monad_expand_where", lit([]), None),
 }
